@@ -2,7 +2,6 @@ package main
 
 import (
 	"encoding/hex"
-	"fmt"
 	"go/types"
 	"strconv"
 )
@@ -88,8 +87,8 @@ func init() {
 	verifAPI["verifBytes"] = func(e *Exec, args []Value, st string) Value {
 		tag, n := argStr(args[0]), argInt(args[1])
 		arr := &ArrayV{e: make([]Value, n)}
-		for i := range arr.e {
-			arr.e[i] = e.fresh(fmt.Sprintf("%s.%d", tag, i), "u8", 8)
+		for i, t := range e.freshBytes(tag, n) {
+			arr.e[i] = t
 		}
 		return &SliceV{obj: e.newObj(arr, "verifBytes "+tag), len: n, cap: n}
 	}
@@ -108,11 +107,7 @@ func init() {
 	}
 	verifAPI["verifStr"] = func(e *Exec, args []Value, st string) Value {
 		tag, n := argStr(args[0]), argInt(args[1])
-		bs := make([]*Term, n)
-		for i := range bs {
-			bs[i] = e.fresh(fmt.Sprintf("%s.%d", tag, i), "u8", 8)
-		}
-		return mkStr(bs)
+		return mkStr(append([]*Term{}, e.freshBytes(tag, n)...))
 	}
 	verifAPI["verifDyadic"] = func(e *Exec, args []Value, st string) Value {
 		tag, frac := argStr(args[0]), argInt(args[1])
